@@ -1,5 +1,5 @@
 """C20 -- collections stay aligned and own their droplets under any sequence of edits."""
-from contracts import collections as co, emulsions as em
+from contracts import collections as co, emulsions as em, tracks as tk
 from pyvc.bounded import Bounded, ContractSampling
 
 LEVEL = "other"
@@ -16,7 +16,7 @@ LEVEL_NOTE = ("A-FP; heap model (references, records, python lists as length + e
               "meta-argument; list.append/pop semantics")
 CONTRACTS = [c.ident for c in (co.DropletCopy(), co.EmulsionAppend(), co.EmulsionExtend(), co.RemoveSmall(), co.TrackAppend(),
                                co.TrackDuration(), co.ETCAppend(), co.ETCClear(), co.EmulsionInterfaceWidth(),
-                               em.RemoveOverlapping(), em.RemoveOverlappingIdempotent())]
+                               em.RemoveOverlapping(), em.RemoveOverlappingIdempotent(), tk.TrackInit())]
 LEMMAS = []
 BOUNDED = [ContractSampling("collection-contracts-on-real-objects", CONTRACTS,
                             "each operation contract on 8 (quick) / 80 (thorough) seeded collections of 0-5 droplets incl. time 0, width 0/None, "
